@@ -984,7 +984,7 @@ func init() {
 	// ------------------------------------------------------------------ C18
 	register(&Prop{
 		ID: "C18", Level: "exploration", QuickS: 25, ThoroughS: 420,
-		Rule:       "seeded sessions in which every callback retains what it is given (validator: database/user/password strings and the client-parameter map it finds in its context; parser: query string and that map; statement functions: Parameter.Value() slices and the client-parameter strings; the Bind method of an application-supplied portal cache: the parameter slice it is handed) together with a private deep copy taken at receipt; the rest of the session stresses read-buffer reuse: messages of body size 1, 4090..4100, 8191/8192, L-5, L-1, L, oversized messages skipped in several chunks, stray CopyData of those sizes, COPY streams, long runs of small messages; after every later callback and at connection end each retained value must equal its copy; a pass-through auth strategy watches cap(Reader.Msg) so that the probes reset_reused_tail / reset_reallocated show the mechanism was reached; E2 variant: Server.Close runs while the connection is open and the client keeps sending messages of sizes around the granule, which are only drained; non-trivial = at least one value was retained and at least two later messages were processed; distinct = distinct case content hashes",
+		Rule:       "seeded sessions in which every callback retains what it is given (validator: database/user/password strings and the client-parameter map it finds in its context; parser: query string and that map; statement functions: Parameter.Value() slices and the client-parameter strings; the Bind method of an application-supplied portal cache: the parameter slice it is handed) together with a private deep copy taken at receipt; the rest of the session stresses read-buffer reuse: messages of body size 1, 4090..4100, 8191/8192, L-5, L-1, L, oversized messages skipped in several chunks, stray CopyData of those sizes, COPY streams, long runs of small messages; after every later callback and at connection end each retained value must equal its copy; a quarter of the cases are followed by a later session on the same server, after which everything the first one retained is compared once more; a pass-through auth strategy watches cap(Reader.Msg) so that the probes reset_reused_tail / reset_reallocated show the mechanism was reached; E2 variant: Server.Close runs while the connection is open and the client keeps sending messages of sizes around the granule, which are only drained; non-trivial = at least one value was retained and at least two later messages were processed; distinct = distinct case content hashes",
 		Components: append(append([]string{}, e1Components...), "E2 share (the variants that pin Server.Close or other connections against a running session): seeded scheduler harness/kernel.go decides every interleaving of connection goroutines and Close callers at transport operations, callbacks, hand-placed hooks and spliced synchronisation points"), Assumptions: commonAssumptions,
 		Gen: func(r *Rand, tier string) *Case {
 			if r.Chance(1, 30) {
@@ -996,6 +996,12 @@ func init() {
 			// the parameter slice it is handed)
 			c.Server.UserCaches = r.Chance(1, 5)
 			genHistory(r, c, histOpts{closes: r.Chance(1, 3), errs: r.Chance(1, 3), simple: true, extended: true, copy: r.Chance(1, 3), params: true, retain: true, sizes: true, bigValues: true, between: true, stray: true, maxUnits: units(tier, 9)})
+			if r.Chance(1, 4) {
+				// a later session on the same server (what the first one's callbacks
+				// retained is looked at again when everything is over: a holder may
+				// outlive its connection)
+				genHistory(r, c, histOpts{prefix: "b", simple: true, extended: true, params: true, retain: true, sizes: r.Bool(), maxUnits: units(tier, 5)})
+			}
 			if su := &c.Conns[0].Steps[0].Msgs[0]; su.K == "startup" && len(su.KV) == 2 && r.Chance(1, 6) {
 				// a startup packet without (or with an empty) database parameter
 				if r.Bool() {
